@@ -20,7 +20,7 @@ RULE = ('G-doc documents under the sentinel policy: every word is unique (wNNNNN
         'words form their own subsequence, attribute-only words are never duplicated into the body; (2) the raw bytes between the two sentinels of '
         'a reserved character are one of the accepted escaped spellings for the target (never the raw character where it is reserved); (3) verbatim '
         'payloads round-trip after undoing the target\'s escaping; (4) markup nests properly (XML parse; LaTeX begin/end stack and brace balance). '
-        'Non-trivial: >=3 distinct slots holding a reserved character; distinct by source.')
+        'Also: header-level metadata (base / LaTeX header level 2..5) and headings, metadata values and Setext titles that end in a character whose last UTF-8 byte is 0xA0 / 0x85. Non-trivial: >=3 distinct slots holding a reserved character; distinct by source.')
 ASSUMPTIONS = ['a `"` may appear as a typographic quote (entity or \\`\\`/\'\' in LaTeX) when smart typography is on; LaTeX does not reserve `"`',
                'OPML stores source text: there the predicate is that XML-unescaping the attribute gives back the source spelling',
                'a code span inside a table cell never contains `|`; code lines inside quotes/lists carry no leading blanks (documented delimiters)',
